@@ -190,6 +190,39 @@ let run_case (ops : string list) : string list =
              let (s', _) = bstep !sb (Later ((if t.(2) = "set" then BSet else BPub), a 3, json_of_tok t.(4))) in
              sb := s';
              "ok"
+         | "lover" ->
+             strip := true;
+             let (h, sb) = Hashtbl.find buffers t.(1) in
+             let n = int_of_string t.(2) in
+             let prefix = unhex t.(3) in
+             for round = 0 to 1 do
+               for i = 0 to n - 1 do
+                 let key = str_of_string (Printf.sprintf "%s/%d" prefix i) in
+                 let v = JNum (str_of_string (string_of_int (round * 1000 + i))) in
+                 let (s', _) = bstep !sb (Later ((if i mod 5 = 0 then BPub else BSet), key, v)) in
+                 sb := s'
+               done;
+               if round = 0 then
+                 List.iter (fun (k, key) ->
+                     let (s', out) = bstep !sb (Fire (k, key)) in
+                     sb := s';
+                     List.iter (function
+                         | SendSet (key, v) -> ignore (do_call h (CSet (key, v)))
+                         | SendPublish (key, v) -> ignore (do_call h (CPublish (key, v)))) out) !sb.sb_timers
+             done;
+             "ok"
+         | "lburst" ->
+             let (_, sb) = Hashtbl.find buffers t.(1) in
+             let n = int_of_string t.(2) in
+             let prefix = unhex t.(3) in
+             let base = int_of_string t.(4) in
+             for i = 0 to n - 1 do
+               let key = str_of_string (Printf.sprintf "%s/%d" prefix i) in
+               let v = JNum (str_of_string (string_of_int (base + i))) in
+               let (s', _) = bstep !sb (Later ((if i mod 5 = 0 then BPub else BSet), key, v)) in
+               sb := s'
+             done;
+             "ok"
          | "sleep" ->
              strip := true;
              (* long enough for every sleeping task to wake up *)
